@@ -47,10 +47,16 @@ def attrs(t):
     return {k: (v if not isinstance(v, list) else list(v)) for k, v in t.__dict__.items() if k not in ("parent_workflow",)}
 
 
-def one(tmpdir, d, absence, how, remove, u_sub, u_parent, position, tag):
+def one(tmpdir, d, absence, how, remove, u_sub, u_parent, position, tag, prior=None):
     out = []
     path, sub_time, sub_status = make_sub(tmpdir, d, absence, how, u_sub, tag)
     n_abs_in = len([a for a in set(absence) if a < sub_time])
+    if prior is not None:
+        # history: another sub-project task was configured from the very same file before (with flag `prior`)
+        other = S.build(parent_spec("alone", path, u_parent)).byname["SUB"]
+        with warnings.catch_warnings():
+            warnings.simplefilter("ignore")
+            other.set_all_attributes_from_json(remove_absence_time_list=prior)
     m = S.build(parent_spec(position, path, u_parent))
     t = m.byname["SUB"]
     before = attrs(t)
@@ -101,10 +107,10 @@ def work(chunk):
     col = engines.Collector()
     tmpdir = tempfile.mkdtemp(prefix="verif-c20-")
     try:
-        for d, absence, how, remove, u_sub, u_parent, position in chunk:
+        for d, absence, how, remove, u_sub, u_parent, position, prior in chunk:
             tag = "%d" % os.getpid()
-            got, want = one(tmpdir, d, absence, how, remove, u_sub, u_parent, position, tag)
-            key = (d, tuple(absence), how, remove, u_sub, u_parent, position)
+            got, want = one(tmpdir, d, absence, how, remove, u_sub, u_parent, position, tag, prior)
+            key = (d, tuple(absence), how, remove, u_sub, u_parent, position, prior)
             col.evaluations += 1
             col.checks["c20." + how] += 1
             col.states.add(hash(key))
@@ -134,11 +140,16 @@ def items(tier):
                     for pos in positions:
                         if tier == "quick" and pos in ("before-succ", "beside") and (us, up) not in ((1, 1), (2, 3), (5, 2), (60, 1), (1, 60)):
                             continue
-                        out.append((d, ab, "success", remove, us, up, pos))
+                        out.append((d, ab, "success", remove, us, up, pos, None))
+                # the same saved file configured twice, with every pair of flags
+                for prior in (True, False):
+                    out.append((d, ab, "success", remove, 1, 1, "alone", prior))
+                    out.append((d, ab, "success", remove, 3, 2, "after-pred", prior))
         for how in ("failure", "never"):
             for remove in (True, False):
-                out.append((d, (), how, remove, 1, 1, "alone"))
-                out.append((d, (0,), how, remove, 2, 3, "after-pred"))
+                out.append((d, (), how, remove, 1, 1, "alone", None))
+                out.append((d, (0,), how, remove, 2, 3, "after-pred", None))
+                out.append((d, (0,), how, remove, 2, 3, "after-pred", True))
     return out
 
 
@@ -148,7 +159,8 @@ def run(tier, seed):
     meta = {
         "level": "exploration",
         "rule": "exhaustive grid: sub-projects of duration 1..%d x absence lists (none, step 0, step 1, consecutive, duplicated, beyond the end) saved after success / after FAILURE / never simulated "
-        "x remove_absence_time_list x every ordered pair of unit times from {1,2,3,5,60} min x position of the sub-project task in the parent (alone, after an FS predecessor, before a successor, beside a worked task); "
+        "x remove_absence_time_list x every ordered pair of unit times from {1,2,3,5,60} min x position of the sub-project task in the parent (alone, after an FS predecessor, before a successor, beside a worked task) x history (first use of the saved file, or after another task was "
+        "configured from the same file with either flag); "
         "oracle: work amount = duration (minus in-range absence steps if requested), WORKING for exactly ceil(duration*u_sub/u_parent) consecutive parent steps from the step dependencies allow, no workers, "
         "successor waits; refusal (warning, task unchanged) for unsuccessful/never simulated sub-projects; non-trivial = successful grid points with different unit times" % (4 if tier == "quick" else 6),
         "bounds": {"grid_points": len(its)},
@@ -160,8 +172,8 @@ def run(tier, seed):
 def replay(v):
     tmpdir = tempfile.mkdtemp(prefix="verif-c20-")
     try:
-        d, ab, how, remove, us, up, pos = v["case"]
-        got, want = one(tmpdir, d, tuple(ab), how, remove, us, up, pos, "replay")
+        d, ab, how, remove, us, up, pos, prior = v["case"]
+        got, want = one(tmpdir, d, tuple(ab), how, remove, us, up, pos, "replay", prior)
         return [{"sig": s, "detail": dd} for s, dd in got]
     finally:
         shutil.rmtree(tmpdir, ignore_errors=True)
